@@ -1564,6 +1564,7 @@ EXT_ENUMS = {
     'toml::Value': ['String', 'Integer', 'Float', 'Boolean', 'Datetime', 'Array', 'Table'],
     'xml::common::XmlVersion': ['Version10', 'Version11'],
     'XmlVersion': ['Version10', 'Version11'],
+    'xml::writer::XmlEvent': ['StartDocument', 'ProcessingInstruction', 'StartElement', 'EndElement', 'CData', 'Comment', 'Characters'],
     'std::io::ErrorKind': ['NotFound', 'PermissionDenied', 'ConnectionRefused', 'ConnectionReset', 'HostUnreachable', 'NetworkUnreachable', 'ConnectionAborted', 'NotConnected', 'AddrInUse',
                            'AddrNotAvailable', 'NetworkDown', 'BrokenPipe', 'AlreadyExists', 'WouldBlock', 'NotADirectory', 'IsADirectory', 'DirectoryNotEmpty', 'ReadOnlyFilesystem',
                            'FilesystemLoop', 'StaleNetworkFileHandle', 'InvalidInput', 'InvalidData', 'TimedOut', 'WriteZero', 'StorageFull', 'NotSeekable', 'QuotaExceeded', 'FileTooLarge',
